@@ -227,6 +227,19 @@ class C19(Property):
             'def lstripSet : List Nat := [%s]\n\n'
             'def rstripSet : List Nat := [%s]\n\n'
             'end C19.Generated\n' % (', '.join(map(str, lset)), ', '.join(map(str, rset))))
+        sset = [c for c in range(0x110000)
+                if not 0xd800 <= c < 0xe000 and len(('a' + chr(c) + 'b').splitlines()) != 1]
+        bset = [c for c in range(256) if len((b'a' + bytes([c]) + b'b').splitlines()) != 1]
+        self._pysplit = (sset, bset)
+        out['C19_PySplit.lean'] = (
+            '/- GENERATED by harness/bv/props/c19.py (regen) by evaluating str.splitlines / bytes.splitlines of the running\n'
+            "   interpreter on 'a' + chr(c) + 'b' for every code point / byte value c - do not edit.\n"
+            '   strBreakSet   : the characters at which str.splitlines splits\n'
+            '   bytesBreakSet : the bytes at which bytes.splitlines splits -/\n'
+            'namespace C19.Generated\n\n'
+            'def strBreakSet : List Nat := [%s]\n\n'
+            'def bytesBreakSet : List Nat := [%s]\n\n'
+            'end C19.Generated\n' % (', '.join(map(str, sset)), ', '.join(map(str, bset))))
         return out
 
     @staticmethod
@@ -275,7 +288,9 @@ class C19(Property):
             return []
         got = d.query(['tbl'])[0]
         lset, rset = getattr(self, '_strip', ([], []))
-        want = 'E' + show_lines(alts, show_cps) + ' L' + show_cps(lset) + ' R' + show_cps(rset)
+        sset, bset = getattr(self, '_pysplit', ([], []))
+        want = ('E' + show_lines(alts, show_cps) + ' L' + show_cps(lset) + ' R' + show_cps(rset)
+                + ' S' + show_cps(sset) + ' B' + show_cps(bset))
         if got != want:
             raise InfraError('driver was built with tables %s, translator read %s' % (got, want))
         return []
